@@ -27,7 +27,9 @@ Struct layer (end of this file, over `Model/Struct.lean`): `assign_post` (the st
 never fails, changes that field only and never creates a field), `setIndex_spec` (a store through
 any alias of an instance is seen through every alias, touches no other field and no other
 instance, for any conversion), `alloc_zero`, `alloc_inv` (a new instance has exactly the fields of
-its type, at their zero values), `method_on_every_instance` (a method added to the type — also
+its type, at their zero values), `allocWith_spec` (a struct literal makes a new instance whose
+named fields hold the converted values, the others their zero values, and changes no existing
+instance), `method_on_every_instance` (a method added to the type — also
 after instances exist — is found on every instance and bound to that instance),
 `addMethod_keeps_fields`. Type objects: `declare_spec` (STRUCT), `addAll_spec`, `sync_spec`
 (a second declaration of a name is MERGED into the first: `Order` only grows, every declared name
@@ -1239,6 +1241,56 @@ def demoHeap : Heap Nat :=
 example : (demoHeap.setIndex 0 19 (fun _ v => v) 7).map (fun hp => (hp.getIndex 0 19, hp.getIndex 0 3, hp.getIndex 1 19)
     matches (.field 7, .field 0, .field 0)) = some true := by decide
 
+/-! ### struct literals -/
+
+/-- the value a literal leaves in field `k` that starts at `z`: the conversions of the values given
+    for `k`, applied in order -/
+def litValue (conv : V → V → V) (k : Int) (z : V) (inits : List (Int × V)) : V :=
+  inits.foldl (fun acc kv => if kv.1 = k then conv acc kv.2 else acc) z
+
+theorem setAll_spec (conv : V → V → V) (r : Nat) (inits : List (Int × V)) : ∀ (hp : Heap V), HInv hp → r < hp.insts.length →
+    ∃ hp', inits.foldlM (fun (h : Heap V) kv => h.setIndex r kv.1 conv kv.2) hp = some hp' ∧ HInv hp' ∧
+      hp'.ty = hp.ty ∧ hp'.insts.length = hp.insts.length ∧
+      (∀ k z, hp.getIndex r k = .field z → hp'.getIndex r k = .field (litValue conv k z inits)) ∧
+      (∀ r' k, r' ≠ r → hp'.getIndex r' k = hp.getIndex r' k) := by
+  induction inits with
+  | nil => intro hp h hr; exact ⟨hp, rfl, h, rfl, rfl, fun k z hz => hz, fun _ _ _ => rfl⟩
+  | cons kv rest ih =>
+    intro hp h hr
+    obtain ⟨hp1, hs, hinv1, hty1, hlen1, hsame, hother, hinst⟩ := setIndex_spec hp h r kv.1 conv kv.2 hr
+    obtain ⟨hp2, hf, hinv2, hty2, hlen2, hfield2, hinst2⟩ := ih hp1 hinv1 (by rw [hlen1]; exact hr)
+    refine ⟨hp2, ?_, hinv2, by rw [hty2, hty1], by rw [hlen2, hlen1], ?_, ?_⟩
+    · rw [List.foldlM_cons, hs]; exact hf
+    · intro k z hz
+      by_cases e : kv.1 = k
+      · subst e
+        have := hfield2 kv.1 (conv z kv.2) (hsame z hz)
+        simpa [litValue] using this
+      · have h1 : hp1.getIndex r k = .field z := by rw [hother k (fun h' => e h'.symm)]; exact hz
+        have := hfield2 k z h1
+        simpa [litValue, e] using this
+    · intro r' k hne
+      rw [hinst2 r' k hne, hinst r' k hne]
+
+/-- **allocWith_spec.** A struct literal `&T{k1: v1, …}` makes a NEW instance (a reference no variable
+    holds yet) with exactly the fields of `T`: a field the literal names holds the converted value,
+    every other field its zero value; no existing instance changes. -/
+theorem allocWith_spec (hp : Heap V) (h : HInv hp) (conv : V → V → V) (inits : List (Int × V)) :
+    ∃ hp', hp.allocWith conv inits = some (hp', hp.insts.length) ∧ HInv hp' ∧
+      hp'.insts.length = hp.insts.length + 1 ∧
+      (∀ k z, hp.ty.fields.get k = some z → hp'.getIndex hp.insts.length k = .field (litValue conv k z inits)) ∧
+      (∀ r' k, r' < hp.insts.length → hp'.getIndex r' k = hp.getIndex r' k) := by
+  have hr : hp.alloc.2 < hp.alloc.1.insts.length := by simp [Heap.alloc]
+  obtain ⟨hp', hf, hinv', _, hlen, hfield, hother⟩ := setAll_spec conv hp.alloc.2 inits hp.alloc.1 (alloc_inv hp h) hr
+  refine ⟨hp', by unfold Heap.allocWith; rw [hf]; rfl, hinv', by rw [hlen]; simp [Heap.alloc], ?_, ?_⟩
+  · intro k z hz
+    exact hfield k z (alloc_zero hp k z hz)
+  · intro r' k hlt
+    have hne : r' ≠ hp.alloc.2 := by simp [Heap.alloc]; omega
+    rw [hother r' k hne]
+    simp only [Heap.getIndex, Heap.alloc]
+    rw [List.getElem?_append_left hlt]
+
 /-! ### the type object: declaration and re-declaration (STRUCT, GLOBALSTRUCT → syncFields → addField) -/
 
 theorem mem_orderAfter (ks : List Int) : ∀ (o : List Int) (k : Int), k ∈ orderAfter o ks ↔ k ∈ o ∨ k ∈ ks := by
@@ -1410,3 +1462,5 @@ end Goat.Props.C12
 #print axioms Goat.Props.C12.sync_takes_new_value
 #print axioms Goat.Props.C12.declare_spec
 #print axioms Goat.Props.C12.type_object_tie
+#print axioms Goat.Props.C12.setAll_spec
+#print axioms Goat.Props.C12.allocWith_spec
